@@ -577,6 +577,28 @@ func (v *Verifier) verifyFunctionFixed(fn *ssa.Function, unrollAll int, fixLen m
 			panic(r)
 		}
 	}()
+	if u.contract != nil {
+		for ln, want := range u.contract.LocalTypes {
+			got := ""
+			for _, b := range fn.Blocks {
+				for _, in := range b.Instrs {
+					switch d := in.(type) {
+					case *ssa.DebugRef:
+						if id, ok := d.Expr.(*ast.Ident); ok && id.Name == ln && !d.IsAddr && got == "" {
+							got = mapTypeString(d.X.Type())
+						}
+					case *ssa.Alloc:
+						if d.Comment == ln && got == "" {
+							got = mapTypeString(d.Type().(*types.Pointer).Elem())
+						}
+					}
+				}
+			}
+			if got != want {
+				u.errs = append(u.errs, fmt.Sprintf("localtype %s: contract requires type %s, the code has %q (contract.attach)", ln, want, got))
+			}
+		}
+	}
 	u.next0 = Var("next0", IntS)
 	nextRoot = u.next0
 	st := &State{H: map[string]*Term{}, Next: u.next0}
